@@ -31,6 +31,7 @@ fn crash(casef: &str, db: &str, out: &str) -> i32 {
     opts.final_reopen = false;
     opts.keep_file = true;
     opts.markers = true;
+    opts.reader_dance = std::env::var("JV_READER_DANCE").ok().and_then(|v| v.parse().ok()).unwrap_or(0);
     let o = run_history(&case, &opts);
     let models: Vec<serde_json::Value> = o.commit_models.iter().map(|m| m.to_value()).collect();
     let _ = std::fs::write(out, serde_json::to_string(&models).unwrap_or_default());
